@@ -191,6 +191,12 @@ func genToks(r *rand.Rand, p *GenProfile, tv bool, srcFields []string) ([]Tok, i
 
 // GenBatch returns a batch of abstract documents.  idBase makes ids unique
 // across batches of one scenario unless duplicates are requested.
+func idFieldDV(id B, dv bool) FieldInst {
+	fi := IDField(id)
+	fi.DV = dv
+	return fi
+}
+
 func GenBatch(r *rand.Rand, p *GenProfile, idBase int) []Doc {
 	n := p.MinDocs
 	if p.MaxDocs > p.MinDocs {
@@ -202,6 +208,10 @@ func GenBatch(r *rand.Rand, p *GenProfile, idBase int) []Doc {
 		plan.tv[f] = r.Intn(2) == 0
 	}
 	plan.dv["_all"] = r.Intn(3) == 0
+	// doc values on _id in about a third of the batches (seeded change C04-6: a re-opened segment that skips
+	// field 0 when loading doc-value readers); derived from the batch's shape, not drawn, so that the random
+	// stream of every earlier scenario is unchanged
+	plan.dv["_id"] = ((uint32(idBase)*2654435761+uint32(n)*40503)>>7)%3 == 0
 	plan.tv["_all"] = r.Intn(2) == 0 || p.Wide
 	// a batch-level subset of the field pool so that field lists differ between batches
 	pool := append([]string(nil), p.FieldPool...)
@@ -235,7 +245,7 @@ func GenBatch(r *rand.Rand, p *GenProfile, idBase int) []Doc {
 		d := Doc{ID: id}
 		if p.Syn && r.Intn(5) < 2 {
 			// a synonym document: _id plus one or two synonym fields (distinct thesauri)
-			d.Fields = append(d.Fields, IDField(id))
+			d.Fields = append(d.Fields, idFieldDV(id, plan.dv["_id"]))
 			names := append([]string(nil), synThesauri...)
 			r.Shuffle(len(names), func(i, j int) { names[i], names[j] = names[j], names[i] })
 			for k := 0; k < 1+r.Intn(2); k++ {
@@ -370,7 +380,7 @@ func GenBatch(r *rand.Rand, p *GenProfile, idBase int) []Doc {
 		pos := r.Intn(len(d.Fields) + 1)
 		d.Fields = append(d.Fields, FieldInst{})
 		copy(d.Fields[pos+1:], d.Fields[pos:])
-		d.Fields[pos] = IDField(id)
+		d.Fields[pos] = idFieldDV(id, plan.dv["_id"])
 		if p.Composite && len(names) > 0 && (r.Intn(2) == 0 || p.Wide) {
 			ci := FieldInst{Name: B("_all")}
 			cp := p
